@@ -90,8 +90,18 @@ def angle_rad(value: float, unit: str):
 
 
 def cast_values(values, dtype: str) -> np.ndarray:
-    """The array the code will see: values rounded once to the operand dtype."""
-    return np.asarray(values, dtype='float64').astype(dtype)
+    """The array the code will see: values rounded once to the operand dtype (integers: to nearest)."""
+    a = np.asarray(values, dtype='float64')
+    if dtype.startswith('int'):
+        a = np.rint(a)
+    return a.astype(dtype)
+
+
+INT_LIMIT = {'int64': 2 * 10 ** 9, 'int32': 30000}     # integer operands whose squares are representable
+
+
+def is_int(dtype: str) -> bool:
+    return dtype.startswith('int')
 
 
 def var(values, dims, unit: str, dtype: str) -> sc.Variable:
@@ -100,6 +110,99 @@ def var(values, dims, unit: str, dtype: str) -> sc.Variable:
         return sc.scalar(a.astype(dtype).item() if dtype.startswith('float') else int(a),
                          unit=scu(unit), dtype=dtype)
     return sc.array(dims=list(dims), values=a.astype(dtype), unit=scu(unit), dtype=dtype)
+
+
+# ---------------------------------------------------------------- layouts of one and the same table
+def binned_var(vals2d: np.ndarray, unit: str, dtype: str, gaps=None, dim: str = 'spectrum') -> sc.Variable:
+    """Event layout: a binned variable over `dim`; row p of `vals2d` are the events of pixel p.
+    gaps[0] events lie in the buffer before the first bin and gaps[p + 1] after bin p (events that belong
+    to no bin, as left behind by slicing / filtering event data); they repeat values of the table."""
+    P, X = vals2d.shape
+    g = [0] * (P + 1) if gaps is None else [int(x) for x in gaps]
+    rows = np.ascontiguousarray(vals2d).astype(dtype)
+    parts, begin, pos = [np.repeat(rows[0, :1], g[0])], [], g[0]
+    for p in range(P):
+        begin.append(pos)
+        parts += [rows[p], np.repeat(rows[p, :1], g[p + 1])]
+        pos += X + g[p + 1]
+    buf = sc.array(dims=['event'], values=np.concatenate(parts), unit=scu(unit), dtype=dtype)
+    b = sc.array(dims=[dim], values=np.asarray(begin, dtype='int64'), unit=None, dtype='int64')
+    e = b + sc.scalar(X, unit=None, dtype='int64')
+    return sc.bins(begin=b, end=e, dim='event', data=buf)
+
+
+def is_binned(v) -> bool:
+    try:
+        return v.bins is not None
+    except Exception:  # noqa: BLE001
+        return False
+
+
+def elem_unit_name(v) -> str:
+    return unit_name(v.bins.unit if is_binned(v) else v.unit)
+
+
+def elem_dtype_name(v) -> str:
+    return dtype_name(v.bins.constituents['data'].dtype if is_binned(v) else v.dtype)
+
+
+def flat_values(v) -> np.ndarray:
+    """All element values of a dense or binned variable (only the events inside the bins)."""
+    if not is_binned(v):
+        return np.asarray(v.values).reshape(-1)
+    rows = bin_rows(v)
+    return np.concatenate(rows) if rows else np.zeros(0)
+
+
+def bin_rows(v) -> list:
+    """Per-bin arrays of a 1-d binned variable."""
+    c = v.bins.constituents
+    data = np.asarray(c['data'].values)
+    b, e = np.asarray(c['begin'].values).reshape(-1), np.asarray(c['end'].values).reshape(-1)
+    return [data[int(i):int(j)] for i, j in zip(b, e)]
+
+
+def strided_view(vals2d: np.ndarray, dims, unit: str, dtype: str, how: str) -> sc.Variable:
+    """The same 2-d table as lc.var(vals2d, dims, ...) but laid out differently in memory:
+    'T'     dims listed in the other order (the transposed table, contiguous),
+    'view'  dims in the given order, memory in the other order (transposed view, strided),
+    'slice' a window cut out of a larger table (strided in both dims)."""
+    d0, d1 = dims
+    if how == 'T':
+        return var(np.ascontiguousarray(vals2d.T), [d1, d0], unit, dtype)
+    if how == 'view':
+        return var(np.ascontiguousarray(vals2d.T), [d1, d0], unit, dtype).transpose([d0, d1])
+    if how == 'slice':
+        n0, n1 = vals2d.shape
+        big = np.full((n0 + 2, n1 + 3), 7, dtype=vals2d.dtype)
+        big[1:n0 + 1, 2:n1 + 2] = vals2d
+        return var(big, [d0, d1], unit, dtype)[d0, 1:n0 + 1][d1, 2:n1 + 2]
+    raise ValueError(how)
+
+
+class OperandPool:
+    """Parameter objects that live across calls (item "second use"): the *same* scipp variable is handed
+    to successive calls, its numbers overwritten in place in between - as a script does that loops over
+    runs with one `Ltotal` / `two_theta` / `incident_energy` object.  A correct kernel sees only the
+    current numbers."""
+
+    def __init__(self):
+        self._pool: dict = {}
+        self.reused = 0
+
+    def get(self, key, values, dims, unit: str, dtype: str) -> sc.Variable:
+        a = np.asarray(values)
+        k = (key, tuple(dims), a.shape, unit, dtype)
+        v = self._pool.get(k)
+        if v is None:
+            v = self._pool[k] = var(values, dims, unit, dtype)
+            return v
+        if a.ndim == 0:
+            v.value = a.astype(dtype).item()
+        else:
+            v.values = a.astype(dtype)
+        self.reused += 1
+        return v
 
 
 def exact(x) -> Fraction:
